@@ -19,8 +19,8 @@ Everything external is an input of the action (it arrives on the op line, taken 
 deployment succeeded, the stateless proposal validation result, derived strings (`CreateDenom`,
 `CreateDenomDescription`, `SanitizeERC20Name`), the set of live contracts.
 
-The pair id is `tmhash(ERC20Address | "|" | Denoms[0])` (types/token_pair.go GetID). The hash is a parameter
-`H : Addr → Denom → Id`; the theorems assume it injective (collision freeness) as a named hypothesis.
+The pair id is `tmhash(ERC20Address | "|" | Denoms[0])` (types/token_pair.go GetID) over the address STRING as stored.
+The hash is a parameter `H : String → Denom → Id`; the theorems assume it injective (collision freeness) as a named hypothesis.
 
 Strings are kept in the hex form of the line protocol (equal iff the real strings are equal, same
 lexicographic order); only `hexAddr?` (go-ethereum `IsHexAddress` + `HexToAddress`) looks inside a string.
@@ -71,9 +71,13 @@ structure ERC20Data where
   decimals : Nat
   deriving DecidableEq, Repr
 
-/-- types.TokenPair; `owner`: 1 = OWNER_MODULE, 2 = OWNER_EXTERNAL -/
+/-- types.TokenPair; `owner`: 1 = OWNER_MODULE, 2 = OWNER_EXTERNAL.
+`addrStr` is the field `ERC20Address` AS STORED: a string. The governance actions write `common.Address.String()`
+(EIP-55 spelling); a genesis file may spell the same 20 bytes differently (lower case, upper case, without `0x`:
+everything `common.IsHexAddress` accepts passes `TokenPair.Validate`). `GetID` hashes the STRING, the address index
+is keyed by the 20 BYTES (`GetERC20Contract() = common.HexToAddress(ERC20Address)`, below `Pair.addr`). -/
 structure Pair where
-  addr : Addr
+  addrStr : String
   denoms : List Denom
   enabled : Bool
   owner : Nat
@@ -114,16 +118,29 @@ def hexAddr? (tokenHex : String) : Option Addr :=
     let cs := strip0x (bs.map (fun b => Char.ofNat b.toNat))
     if cs.length = 40 ∧ cs.all isHexChar then some (String.ofList (cs.map lowerHex)) else none
 
+/-- `common.HexToAddress` on a string that `IsHexAddress` accepts: optional `0x`/`0X` dropped, 40 digits, case
+irrelevant; result in the canonical form of the line protocol (40 lower-case digits). -/
+def addrOf (s : String) : Addr := String.ofList ((strip0x s.toList).map lowerHex)
+
+/-- `common.IsHexAddress` on an address string (ethermint `ValidateAddress`, used by `TokenPair.Validate`) -/
+def isHexAddressStr (s : String) : Bool :=
+  let cs := strip0x s.toList
+  cs.length = 40 && cs.all isHexChar
+
+/-- TokenPair.GetERC20Contract -/
+def Pair.addr (p : Pair) : Addr := addrOf p.addrStr
+
 /-! ### the keeper functions -/
 
 section
-variable {Id : Type} [DecidableEq Id] (H : Addr → Denom → Id)
+variable {Id : Type} [DecidableEq Id] (H : String → Denom → Id)
 
-/-- TokenPair.GetID: `Denoms[0]` panics on an empty list -/
+/-- TokenPair.GetID = tmhash(ERC20Address + "|" + Denoms[0]): the address STRING as stored; `Denoms[0]` panics on an
+empty list -/
 def getID (p : Pair) : Option Id :=
   match p.denoms with
   | [] => none
-  | d :: _ => some (H p.addr d)
+  | d :: _ => some (H p.addrStr d)
 
 /-- Keeper.GetTokenPairID -/
 def tokenPairID (r : Reg Id) (tokenHex : String) : Option Id :=
@@ -157,7 +174,8 @@ def deleteTokenPair (r : Reg Id) (p : Pair) : Option (Reg Id) :=
   | some id => some { r with pairs := r.pairs.del id, byErc := r.byErc.del p.addr, byDen := r.byDen.delAll p.denoms }
 
 /-- Keeper.RegisterCoin behind RegisterCoinProposal.ValidateBasic -/
-def registerCoin (r : Reg Id) (vb hasSupply isEvmDenom deployOk : Bool) (deployAddr : Addr) (m : Meta) : Reg Id × Status :=
+def registerCoin (r : Reg Id) (vb hasSupply isEvmDenom deployOk : Bool) (deployAddr : Addr) (deployStr : String) (m : Meta) :
+    Reg Id × Status :=
   if !(vb && hasDisplayUnit m) then (r, .err) else
   if !r.enabled then (r, .err) else
   if isEvmDenom then (r, .err) else
@@ -170,8 +188,8 @@ def registerCoin (r : Reg Id) (vb hasSupply isEvmDenom deployOk : Bool) (deployA
     | [] => (r, .panic)                                        -- DeployERC20Contract: DenomUnits[0]
     | _ :: _ =>
       if !deployOk then (r, .err) else
-      let pair : Pair := { addr := deployAddr, denoms := [m.base], enabled := true, owner := 1 }
-      let id := H deployAddr m.base
+      let pair : Pair := { addrStr := deployStr, denoms := [m.base], enabled := true, owner := 1 }   -- addr.String()
+      let id := H deployStr m.base
       ({ r with metas := metas', pairs := r.pairs.ins id pair,
                 byDen := r.byDen.insAll pair.denoms id, byErc := r.byErc.ins deployAddr id }, .ok)
 
@@ -204,7 +222,7 @@ def addCoin (r : Reg Id) (vb hasSupply isEvmDenom : Bool) (contractHex : String)
 /-- Keeper.RegisterERC20 (+ CreateCoinMetadata) behind RegisterERC20Proposal.ValidateBasic.
 `denom = CreateDenom(contract.String())`, `desc = CreateDenomDescription(contract.String())`,
 `sanitized = SanitizeERC20Name(name)`, `mdValid` = result of `metadata.Validate()` on the constructed metadata. -/
-def registerERC20 (r : Reg Id) (vb : Bool) (addr : Addr) (q : Option ERC20Data)
+def registerERC20 (r : Reg Id) (vb : Bool) (addr : Addr) (addrStr : String) (q : Option ERC20Data)
     (sanitized denom desc : String) (mdValid : Bool) : Reg Id × Status :=
   if !vb then (r, .err) else
   if !r.enabled then (r, .err) else
@@ -219,8 +237,8 @@ def registerERC20 (r : Reg Id) (vb : Bool) (addr : Addr) (q : Option ERC20Data)
         display := if d.decimals > 0 then sanitized else denom,
         units := (denom, 0) :: (if d.decimals > 0 then [(sanitized, d.decimals)] else []) }
     if !mdValid then (r, .err) else
-    let pair : Pair := { addr := addr, denoms := [md.name], enabled := true, owner := 2 }
-    let id := H addr md.name
+    let pair : Pair := { addrStr := addrStr, denoms := [md.name], enabled := true, owner := 2 }   -- contract.String()
+    let id := H addrStr md.name
     ({ r with metas := r.metas.ins md.base md, pairs := r.pairs.ins id pair,
               byDen := r.byDen.insAll pair.denoms id, byErc := r.byErc.ins addr id }, .ok)
 
@@ -254,7 +272,7 @@ def updateChecks (r : Reg Id) (d0 : Denom) (q : Option ERC20Data) (descOld : Str
 
 /-- Keeper.UpdateTokenPairERC20 AS IT IS in the repository: after `DeleteTokenPair` (which removes the index entries
 of every denomination) only `Denoms[0]` is indexed again, and the new address is not checked against the registry. -/
-def updateERC20Orig (r : Reg Id) (vb : Bool) (old new : Addr) (q : Option ERC20Data)
+def updateERC20Orig (r : Reg Id) (vb : Bool) (old new : Addr) (newStr : String) (q : Option ERC20Data)
     (descOld descNew : String) : Reg Id × Status :=
   if !vb then (r, .err) else
   match r.byErc.find old with
@@ -273,14 +291,14 @@ def updateERC20Orig (r : Reg Id) (vb : Bool) (old new : Addr) (q : Option ERC20D
           match deleteTokenPair H r1 p with
           | none => (r, .panic)
           | some r2 =>
-            let p' : Pair := { p with addr := new }
-            let newID := H new d0
+            let p' : Pair := { p with addrStr := newStr }        -- newERC20Addr.Hex()
+            let newID := H newStr d0
             ({ r2 with pairs := r2.pairs.ins newID p', byDen := r2.byDen.ins d0 newID,
                        byErc := r2.byErc.ins new newID }, .ok)
 
 /-- UpdateTokenPairERC20 with the repair of fixes/C12-update-erc20-reindex.diff: a new address that is already
 registered is rejected, and every denomination of the pair is indexed under the new id. -/
-def updateERC20 (r : Reg Id) (vb : Bool) (old new : Addr) (q : Option ERC20Data)
+def updateERC20 (r : Reg Id) (vb : Bool) (old new : Addr) (newStr : String) (q : Option ERC20Data)
     (descOld descNew : String) : Reg Id × Status :=
   if !vb then (r, .err) else
   match r.byErc.find old with
@@ -300,8 +318,8 @@ def updateERC20 (r : Reg Id) (vb : Bool) (old new : Addr) (q : Option ERC20Data)
           match deleteTokenPair H r1 p with
           | none => (r, .panic)
           | some r2 =>
-            let p' : Pair := { p with addr := new }
-            let newID := H new d0
+            let p' : Pair := { p with addrStr := newStr }        -- newERC20Addr.Hex()
+            let newID := H newStr d0
             ({ r2 with pairs := r2.pairs.ins newID p', byDen := r2.byDen.insAll p'.denoms newID,   -- repair (2)
                        byErc := r2.byErc.ins new newID }, .ok)
 
@@ -336,11 +354,11 @@ def convert (r : Reg Id) (tokenHex denomHex : String) (live : List Addr) : Reg I
 inductive Action where
   | setParams (enable : Bool)
   | bankMeta (m : Meta)                  -- environment: some other module / genesis writes bank metadata
-  | registerCoin (vb hasSupply isEvmDenom deployOk : Bool) (deployAddr : Addr) (m : Meta)
+  | registerCoin (vb hasSupply isEvmDenom deployOk : Bool) (deployAddr : Addr) (deployStr : String) (m : Meta)
   | addCoin (vb hasSupply isEvmDenom : Bool) (contractHex : String) (m : Meta)
-  | registerERC20 (vb : Bool) (addr : Addr) (q : Option ERC20Data) (sanitized denom desc : String) (mdValid : Bool)
+  | registerERC20 (vb : Bool) (addr : Addr) (addrStr : String) (q : Option ERC20Data) (sanitized denom desc : String) (mdValid : Bool)
   | toggle (vb : Bool) (tokenHex : String)
-  | update (vb : Bool) (old new : Addr) (q : Option ERC20Data) (descOld descNew : String)
+  | update (vb : Bool) (old new : Addr) (newStr : String) (q : Option ERC20Data) (descOld descNew : String)
   | convert (tokenHex denomHex : String) (live : List Addr)
   deriving Repr
 
@@ -348,11 +366,11 @@ inductive Action where
 def stepWith (fixed : Bool) (r : Reg Id) : Action → Reg Id × Status
   | .setParams b => ({ r with enabled := b }, .ok)
   | .bankMeta m => ({ r with metas := r.metas.ins m.base m }, .ok)
-  | .registerCoin vb hs ev dk a m => registerCoin H r vb hs ev dk a m
+  | .registerCoin vb hs ev dk a as m => registerCoin H r vb hs ev dk a as m
   | .addCoin vb hs ev c m => addCoin H r vb hs ev c m
-  | .registerERC20 vb a q s d ds mv => registerERC20 H r vb a q s d ds mv
+  | .registerERC20 vb a as q s d ds mv => registerERC20 H r vb a as q s d ds mv
   | .toggle vb t => toggleRelay H r vb t
-  | .update vb o n q d1 d2 => if fixed then updateERC20 H r vb o n q d1 d2 else updateERC20Orig H r vb o n q d1 d2
+  | .update vb o n ns q d1 d2 => if fixed then updateERC20 H r vb o n ns q d1 d2 else updateERC20Orig H r vb o n ns q d1 d2
   | .convert t d l => convert H r t d l
 
 def step (r : Reg Id) (a : Action) : Reg Id × Status := stepWith H true r a
@@ -367,20 +385,44 @@ def runOrig (r : Reg Id) (as : List Action) : Reg Id := runWith H false r as
 
 /-! ### genesis (x/aggregate/genesis.go, types/genesis.go) -/
 
-/-- GenesisState.Validate as far as pairs are concerned: duplicates of the address and of `Denoms[0]` ONLY
-(`Denoms[0]` on an empty list panics: `none`); `pairOk` = TokenPair.Validate (stateless syntax) from the op line. -/
-def validateGenesisAux (seenE : List Addr) (seenD : List Denom) : List Pair → Option Bool
+/-- GenesisState.Validate as far as pairs are concerned: duplicates of the address STRING (`seenErc20` is keyed by
+`b.ERC20Address`, two spellings of one contract are different keys) and of `Denoms[0]` ONLY (`Denoms[0]` on an empty list
+panics: `none`), then `TokenPair.Validate`: the address string must be a hex address (the denominations are syntactically
+valid in every generated file). -/
+def validateGenesisAux (seenE : List String) (seenD : List Denom) : List Pair → Option Bool
   | [] => some true
   | p :: ps =>
-    if seenE.contains p.addr then some false else
+    if seenE.contains p.addrStr then some false else
     match p.denoms with
     | [] => none
     | d :: _ =>
-      if seenD.contains d then some false else validateGenesisAux (p.addr :: seenE) (d :: seenD) ps
+      if seenD.contains d then some false else
+      if !isHexAddressStr p.addrStr then some false else
+      validateGenesisAux (p.addrStr :: seenE) (d :: seenD) ps
 
 def validateGenesis (ps : List Pair) : Option Bool := validateGenesisAux [] [] ps
 
-/-- InitGenesis: for every pair `SetTokenPair`, `SetDenomsMap`, `SetERC20Map` (`none` = GetID panicked) -/
+/-- `seenDenom` of the repaired Validate: every denomination of the pair, `none` = one of them was seen before -/
+def addDenoms (seen : List Denom) : List Denom → Option (List Denom)
+  | [] => some seen
+  | d :: ds => if seen.contains d then none else addDenoms (d :: seen) ds
+
+/-- GenesisState.Validate with the repair of fixes/C12-genesis-validate-duplicates.diff: a pair needs a denomination,
+`TokenPair.Validate` first, contracts compared as 20-byte addresses, EVERY denomination checked for duplicates. -/
+def validateGenesisStrictAux (seenE : List Addr) (seenD : List Denom) : List Pair → Bool
+  | [] => true
+  | p :: ps =>
+    if p.denoms.isEmpty then false else
+    if !isHexAddressStr p.addrStr then false else
+    if seenE.contains p.addr then false else
+    match addDenoms seenD p.denoms with
+    | none => false
+    | some seenD' => validateGenesisStrictAux (p.addr :: seenE) seenD' ps
+
+def validateGenesisStrict (ps : List Pair) : Bool := validateGenesisStrictAux [] [] ps
+
+/-- InitGenesis: for every pair `id := GetID()` (from the string as written), `SetTokenPair` (under `GetID()` of the pair as
+stored — the same string), `SetDenomsMap(id)`, `SetERC20Map(GetERC20Contract(), id)` (`none` = GetID panicked) -/
 def initGenesis (r : Reg Id) : List Pair → Option (Reg Id)
   | [] => some r
   | p :: ps =>
